@@ -8,23 +8,25 @@ use syn::Ident;
 use crate::wgsl::vertex_entry_structs;
 
 pub fn fragment_target_count(module: &Module, f: &Function) -> usize {
+    // Color targets are indexed by location, so the highest location determines the count.
     match &f.result {
         Some(r) => match &r.binding {
-            Some(b) => {
-                // Builtins don't have render targets.
-                if matches!(b, naga::Binding::Location { .. }) {
-                    1
-                } else {
-                    0
-                }
-            }
+            // Builtins don't have render targets.
+            Some(naga::Binding::Location { location, .. }) => *location as usize + 1,
+            Some(_) => 0,
             None => {
                 // Fragment functions should return a single variable or a struct.
                 match &module.types[r.ty].inner {
                     naga::TypeInner::Struct { members, .. } => members
                         .iter()
-                        .filter(|m| matches!(m.binding, Some(naga::Binding::Location { .. })))
-                        .count(),
+                        .filter_map(|m| match m.binding {
+                            Some(naga::Binding::Location { location, .. }) => {
+                                Some(location as usize + 1)
+                            }
+                            _ => None,
+                        })
+                        .max()
+                        .unwrap_or(0),
                     _ => 0,
                 }
             }
